@@ -529,7 +529,18 @@ fn gen_args(rng: &mut Rng, cfg: &GenCfg, sw: &Swarm, names: &mut Names, c: &mut 
     let n_total = rng.usize(cfg.max_args + 1);
     let n_pos = if sw.positionals { rng.usize(n_total.min(3) + 1) } else { 0 };
     let n_opt = n_total - n_pos;
-    let headings: Vec<String> = if cfg.help_features && sw.headings { vec![format!("Heading{:03}", names.next_n()), format!("Other{:03}", names.next_n())] } else { vec![] };
+    let headings: Vec<String> = if cfg.help_features && sw.headings {
+        let n1 = names.next_n();
+        let n2 = names.next_n();
+        if rng.chance(1, 5) {
+            // two headings that differ only in case
+            vec![format!("Heading{n1:03}"), format!("HEADING{n1:03}"), format!("Other{n2:03}")]
+        } else {
+            vec![format!("Heading{n1:03}"), format!("Other{n2:03}")]
+        }
+    } else {
+        vec![]
+    };
 
     // ---- options and flags
     for _ in 0..n_opt {
